@@ -223,10 +223,19 @@ func cmdCheck(args []string) {
 		engineErrs = append(engineErrs, errs...)
 		for _, sr := range srs {
 			nObl++
-			reports = append(reports, oblReport{Name: sr.Name, Func: sr.Func, Kind: sr.Kind, Pos: sr.Pos, Status: sr.Status, Solver: "govc-static"})
+			be := sr.Backend
+			if be == "" {
+				be = "govc-static"
+			}
+			if sr.Status == "error" {
+				engineErrs = append(engineErrs, sr.Name+": "+sr.Detail)
+				nObl--
+				continue
+			}
+			reports = append(reports, oblReport{Name: sr.Name, Func: sr.Func, Kind: sr.Kind, Pos: sr.Pos, Status: sr.Status, Solver: be})
 			if sr.Status == "unsat" {
 				nDis++
-				byBackend["govc-static"]++
+				byBackend[be]++
 				if len(samples) < 4 && len(srs) > 0 && sr.Name == srs[len(srs)/2].Name {
 					samples = append(samples, map[string]string{"obligation": sr.Name, "pos": sr.Pos, "goal": sr.Detail})
 				}
